@@ -318,6 +318,11 @@ fn gen_scenario(t: &mut Tape, c: &mut Case) -> Scenario {
         // explicit tag destinations: avoid duplicate mappings through the implicit tag spec
         tagopt = TagOpt::NoTags;
     }
+    if tagopt == TagOpt::Follow && specs.iter().any(|s| s.starts_with('^')) {
+        // git collects the tags to follow BEFORE it prunes the ref map with negative refspecs, so a tag on the tip of an
+        // excluded branch is still fetched (with that tip). An ordering quirk, not something to hold gitoxide to.
+        tagopt = TagOpt::NoTags;
+    }
     let mut init = match t.weighted(&[2, 6, 3, 2]) {
         0 => ClientInit::Empty,
         1 => ClientInit::Stale,
@@ -731,7 +736,7 @@ pub fn main() {
     ck.rule("Scenarios decoded from a byte tape: server history of 1..35 commits (12%: 40..140) with merges, extra roots, equal and skewed commit times, 1..4 branches and 0..3 lightweight/annotated tags at S1; updates to S2 per branch (unchanged / moved to new commits / rewound to an ancestor / moved anywhere / deleted), new branches, moved/deleted/new tags; bare client prepared by real git (empty / stale / partial / shallow; 23%: a private branch of 17..70 commits unknown to the server so that negotiation takes several rounds); remote.origin.fetch from 8 refspec families (forced and non-forced globs, explicit branches, renaming globs, explicit tags, negative, mirror, into local branches); tagOpt default/--no-tags/--tags; protocol.version 0/1/2; fetch.negotiationAlgorithm unset/consecutive/skipping/noop; --depth / --deepen for a class. Non-trivial: the update contains a non-fast-forward move or a deletion, or the client already has part of the history or private history (negotiation happens). Distinct by hash of the decoded scenario.");
     ck.assume(&format!("{} is the server (`git-upload-pack`), builds every repository and is the reference client (`git fetch origin`, `git clone`) and the judge of integrity (`git fsck`)", Git::version()));
     ck.assume("with the default tag mode (auto-follow) gitoxide documents `Tags::Included` as 'only the tags that point to the objects being sent'; git additionally back-fills annotated tags whose target the client already had. That class is recognised (annotated server tag missing locally whose peeled target exists locally before the fetch) and only there refs/tags/* of A may be a subset of B's");
-    ck.assume("with --depth/--deepen and a non-forced refspec git rejects genuine fast-forwards because it judges them on the just-truncated (grafted) history; there gitoxide's value (the server's) is accepted when the generated history says it is a fast-forward");
+    ck.assume("in a shallow client repository (or with --depth/--deepen) and a non-forced refspec git rejects genuine fast-forwards because it judges them on the just-truncated (grafted) history; there gitoxide's value (the server's) is accepted when the generated history says it is a fast-forward");
     ck.assume("refs are compared by name and resolved object id (gitoxide may store a symbolic ref where git stores the value)");
 
     ck.sub("fetch", SubCfg::new(200, 6_000).max_len(1400).max_shrink(40), |t, c| {
@@ -994,12 +999,15 @@ pub fn main() {
             match refs_b.get(name) {
                 Some(other) if other == id => {}
                 Some(other) => {
-                    // With --depth/--deepen git judges fast-forwards on the history it has just truncated: the new tip is a
-                    // shallow commit without parents, so a genuine fast-forward through a non-forced refspec is rejected
+                    // In a shallow repository (or with --depth/--deepen) git judges fast-forwards on the grafted history: the walk
+                    // from the new tip stops at a shallow commit, so a genuine fast-forward through a non-forced refspec is rejected
                     // ("! [rejected] (non-fast-forward)") and git keeps the old value. gitoxide reads the parents of the new
                     // tip, finds the old tip and sets the server's value. Not a defect of either; tolerated when the model
                     // says it is a true fast-forward.
-                    if s.shallow != ShallowOp::None && !git_ok && refs_before.get(name) == Some(other) {
+                    if (s.shallow != ShallowOp::None || matches!(s.init, ClientInit::StaleShallow(_)))
+                        && !git_ok
+                        && refs_before.get(name) == Some(other)
+                    {
                         if let (Some(new), Some(old)) = (index_of.get(id), index_of.get(other)) {
                             if ancestors(h, *new).contains(old) {
                                 c.label("git-rejected-fast-forward-on-truncated-history");
